@@ -1,15 +1,19 @@
-(* Model of vivarium/framework/time.py (SimulationClock with per-simulant clocks) and of the part of engine.step /
-   initialize_simulants that drives it (DESIGN.md C10).  Times and step sizes are integers (nanoseconds for
-   DateTimeClock, plain numbers for SimpleClock).
+(* Model of vivarium/framework/time.py (SimulationClock with per-simulant clocks), of the part of engine.py that drives
+   it (initialize_simulants, step) and of InteractiveContext.step (DESIGN.md C10).  Times and step sizes are integers
+   (nanoseconds for DateTimeClock, quarter units for the SimpleClock configurations the harness uses).
 
-   time.py anchors:
-     step_size_post_processor            -> [post]
-     on_initialize_simulants             -> [create]
-     step_forward                        -> [step_forward]   (guard: individual clocks and `not index.empty`)
-     get_active_simulants                -> [active]
-     move_simulants_to_end               -> [snooze_op]
-   engine.py: step (4 events, then step_forward), initialize_simulants (step_backward, create, step_forward)
-   interactive.py: step (restores the global step only when an override was given)                              *)
+   time.py anchors (line numbers of `python3 tools/strip.py`):
+     step_size_post_processor   196-220  -> [post]
+     on_initialize_simulants    132-142  -> [create]
+     step_forward               164-183  -> [step_forward]   (guard: individual clocks and `not index.empty`)
+     get_active_simulants       185-190  -> [active_at] / [active]
+     move_simulants_to_end      192-194  -> [snooze_op]      (guard: individual clocks and `not index.empty`)
+     step_size / event_time     79-91    -> the `S = 0 -> ValueError` branch of [engine_step]
+   engine.py: initialize_simulants 248-255 -> [initialize];  step 257-268 -> [engine_step]
+   interactive.py: step 46-69 -> [istep] (puts the pre-step global step back only when an override was given)
+
+   The model is the clock WITH individual clocks (some step modifier registered); the clock without modifiers is the
+   three-line [global_step] at the end.                                                                               *)
 From Viv Require Import Common.
 Local Open Scope Z_scope.
 
@@ -20,12 +24,12 @@ Record clk := {
   E : Z;                 (* _stop_time *)
   m : Z;                 (* _minimum_step_size *)
   std : Z;               (* _standard_step_size *)
-  rows : list row;       (* next_event_time / step_size columns, all simulants in label order *)
+  rows : list row;       (* next_event_time / step_size columns, all simulants (tracked or not) in label order *)
   snooze : list Z        (* _simulants_to_snooze *)
 }.
 
 (* ---- step_size_post_processor: min over the modifiers' values (NaN ignored; all NaN -> standard step),
-        floor(v / minimum) with 0 replaced by 1, times minimum ---- *)
+        floor(v / minimum) with 0 replaced by 1, times minimum.  Z's `/` is floor division, as np.floor is. ---- *)
 Fixpoint min_some (vals : list (option Z)) : option Z :=
   match vals with
   | [] => None
@@ -45,18 +49,20 @@ Definition due (t : Z) (r : row) : bool := nxt r <=? t.
 
 Definition set_clk (c : clk) (T' S' : Z) (rs : list row) (sn : list Z) : clk :=
   {| T := T'; S := S'; E := E c; m := m c; std := std c; rows := rs; snooze := sn |}.
+Definition with_S (c : clk) (s : Z) : clk := set_clk c (T c) s (rows c) (snooze c).
 
 (* ---- get_active_simulants(index = whole population, time) ---- *)
 Definition active_at (c : clk) (t : Z) : list Z := labels (filter (due t) (rows c)).
 Definition active (c : clk) : list Z := active_at c (T c + S c).        (* engine.step: time = clock.event_time *)
 
-(* ---- step_forward(index = whole population), individual clocks enabled.
-   req l = the values the step-size pipeline's modifiers return for simulant l at this call.
-   A snoozed simulant that is not due makes `.loc[snooze, ...]` raise KeyError (F-I): Rejected EOther. ---- *)
+(* ---- step_forward(index = whole population).
+   req l = the values the step-size pipeline's source and modifiers return for simulant l at this call.
+   A snoozed simulant that is not among those being updated makes `.loc[snooze, ...] = ` raise KeyError (F-I):
+   Rejected EOther. ---- *)
+Definition new_step (req : Z -> list (option Z)) (c : clk) (T' : Z) (l : Z) : Z :=
+  if zmem l (snooze c) then E c + m c - T' else post (m c) (std c) (req l).
 Definition update_row (req : Z -> list (option Z)) (c : clk) (T' : Z) (r : row) : row :=
-  if due T' r then
-    let s := if zmem (lbl r) (snooze c) then E c + m c - T' else post (m c) (std c) (req (lbl r)) in
-    {| lbl := lbl r; nxt := T' + s; stp := s |}
+  if due T' r then {| lbl := lbl r; nxt := T' + new_step req c T' (lbl r); stp := new_step req c T' (lbl r) |}
   else r.
 
 Definition step_forward (req : Z -> list (option Z)) (c : clk) : result clk :=
@@ -66,7 +72,7 @@ Definition step_forward (req : Z -> list (option Z)) (c : clk) : result clk :=
   | _ =>
     let U := filter (due T') (rows c) in
     match U with
-    | [] => Ok (set_clk c T' (min_next (rows c) - T') (rows c) (snooze c))
+    | [] => Ok (set_clk c T' (min_next (rows c) - T') (rows c) (snooze c))     (* `if not clocks_to_update.empty` *)
     | _ =>
       if forallb (fun l => zmem l (labels U)) (snooze c) then
         let rs := map (update_row req c T') (rows c) in
@@ -75,61 +81,106 @@ Definition step_forward (req : Z -> list (option Z)) (c : clk) : result clk :=
     end
   end.
 
-(* the guard the code used before the repair of F-A: Index.any() = truthiness of the LABELS *)
+(* the guard the code used before the repair of F-A (commit 47eaecae): Index.any() = truthiness of the LABELS *)
 Definition pd_any (idx : list Z) : bool := existsb (fun l => negb (l =? 0)) idx.
 Definition step_forward_any (req : Z -> list (option Z)) (c : clk) : result clk :=
   if pd_any (labels (rows c)) then step_forward req c
   else Ok (set_clk c (T c + S c) (S c) (rows c) (snooze c)).
 
-(* ---- move_simulants_to_end(index): Index.union (sorted, no duplicates; order is irrelevant for membership) ---- *)
+(* ---- move_simulants_to_end(index): Index.union (membership is all that matters); guard on the ARGUMENT ---- *)
 Definition snooze_op (c : clk) (idx : list Z) : clk :=
-  match rows c, idx with
-  | _, [] => c
-  | [], _ => c
-  | _, _ => set_clk c (T c) (S c) (rows c) (snooze c ++ filter (fun l => negb (zmem l (snooze c))) idx)
+  match idx with
+  | [] => c
+  | _ => set_clk c (T c) (S c) (rows c) (snooze c ++ filter (fun l => negb (zmem l (snooze c))) idx)
   end.
 
-(* ---- creation of n simulants: labels len .. len+n-1, next = T + S, step = S of the moment ---- *)
+(* ---- creation of n simulants: labels len .. len+n-1, next = T + S (event_time), step = S of the moment ---- *)
 Fixpoint new_rows (first : Z) (n : nat) (t s : Z) : list row :=
   match n with O => [] | Datatypes.S k => {| lbl := first; nxt := t; stp := s |} :: new_rows (first + 1) k t s end.
 Definition create (c : clk) (n : nat) : clk :=
   set_clk c (T c) (S c) (rows c ++ new_rows (Z.of_nat (length (rows c))) n (T c + S c) (S c)) (snooze c).
 
 (* ---- SimulationContext.initialize_simulants: step_backward, create, step_forward ---- *)
+Definition pre_init (c : clk) (n : nat) : clk := create (set_clk c (T c - S c) (S c) (rows c) (snooze c)) n.
 Definition initialize (req : Z -> list (option Z)) (c : clk) (n : nat) : result clk :=
-  step_forward req (create (set_clk c (T c - S c) (S c) (rows c) (snooze c)) n).
+  step_forward req (pre_init c n).
 
-(* ---- the invariant at a step boundary ---- *)
+(* ---- histories ---- *)
+Inductive op :=
+  | StepForward (req : Z -> list (option Z))
+  | Create (n : nat)
+  | Snooze (idx : list Z).
+Definition apply_op (c : clk) (o : op) : result clk :=
+  match o with
+  | StepForward req => step_forward req c
+  | Create n => Ok (create c n)
+  | Snooze idx => Ok (snooze_op c idx)
+  end.
+Fixpoint run_ops (c : clk) (ops : list op) : result clk :=
+  match ops with
+  | [] => Ok c
+  | o :: r => match apply_op c o with Ok c1 => run_ops c1 r | Rejected e => Rejected e | OutOfFuel => OutOfFuel end
+  end.
+
+(* ---- the invariant (at every step boundary and between the events of a step) ---- *)
 Definition Inv (c : clk) : Prop :=
-  rows c <> [] /\ (forall r, In r (rows c) -> T c < nxt r) /\ S c = min_next (rows c) - T c.
+  0 < S c /\ (forall r, In r (rows c) -> T c < nxt r) /\ (rows c <> [] -> S c = min_next (rows c) - T c).
+(* labels are 0 .. n-1 in order (population manager: new labels continue from len(population)) *)
+Fixpoint zrange (first : Z) (n : nat) : list Z :=
+  match n with O => [] | Datatypes.S k => first :: zrange (first + 1) k end.
+Definition WF (c : clk) : Prop := labels (rows c) = zrange 0 (length (rows c)).
 
-(* ================= executable trace model used by the correspondence =================
-   The generator's modifiers are arithmetic functions of (label, tick) so that both the probe component and Coq can
-   evaluate them; the THEOREMS quantify over arbitrary [req]. *)
-Record modifier := { ma : Z; mb : Z; mc : Z; mnum : Z; mden : Z; mp : Z }.
-Definition mod_value (c : clk) (t0 : Z) (md : modifier) (l : Z) : option Z :=
-  let tick := (T c - t0) / m c in
-  if (negb (mp md =? 0)) && ((l + tick) mod (mp md) =? 0) then None
-  else Some ((((ma md * l + mb md * tick) mod (mc md)) + 1) * m c * mnum md / mden md).
-Definition req_of (mods : list modifier) (t0 : Z) (c : clk) (l : Z) : list (option Z) :=
-  None :: map (fun md => mod_value {| T := T c + S c; S := S c; E := E c; m := m c; std := std c; rows := rows c; snooze := snooze c |} t0 md l) mods.
-  (* the modifiers are evaluated inside step_forward, after the clock has advanced: tick of T + S;
-     the leading None is the pipeline's own source (a NaN series) *)
+(* ---- engine.step: four events, each with a freshly computed index; listeners may give birth and move simulants to
+        the end during any of them; then step_forward.  event_time reads the step_size property, which raises
+        ValueError when `_clock_step_size == 0`: true of SimpleClock's numbers, never of a pd.Timedelta
+        (`pd.Timedelta(0) == 0` is False), hence the flag [zchk] (a constant of the clock plugin). ---- *)
+Record ev_act := { births : nat; sn : list Z }.
+Definition ops_of (a : ev_act) : list op := [Snooze (sn a); Create (births a)].
+Fixpoint run_events (c : clk) (acts : list ev_act) : clk * list (list Z) :=
+  match acts with
+  | [] => (c, [])
+  | a :: r => let idx := active c in
+              let '(c2, idxs) := run_events (create (snooze_op c (sn a)) (births a)) r in (c2, idx :: idxs)
+  end.
+Definition engine_step (zchk : bool) (req : Z -> list (option Z)) (c : clk) (acts : list ev_act)
+  : result (clk * list (list Z)) :=
+  if zchk && (S c =? 0) then Rejected EOther else
+  let '(c1, idxs) := run_events c acts in
+  match step_forward req c1 with
+  | Ok c2 => Ok (c2, idxs)
+  | Rejected e => Rejected e
+  | OutOfFuel => OutOfFuel
+  end.
 
-(* what a probe does during the time_step event of one step *)
-Record step_plan := { births : nat; sn_mod : Z; sn_rem : Z }.   (* snooze the active labels l with l mod sn_mod = sn_rem (0 = none) *)
+(* ---- InteractiveContext.step(step_size=ovr) ---- *)
+Definition istep (zchk : bool) (ovr : option Z) (req : Z -> list (option Z)) (c : clk) (acts : list ev_act)
+  : result (clk * list (list Z)) :=
+  let c1 := match ovr with Some s => with_S c s | None => c end in
+  if zchk && (S c =? 0) then Rejected EOther else  (* `type(self._clock.step_size)` / event_time on a zero step *)
+  match engine_step zchk req c1 acts with
+  | Ok (c2, idxs) => Ok (match ovr with Some _ => with_S c2 (S c) | None => c2 end, idxs)
+  | Rejected e => Rejected e
+  | OutOfFuel => OutOfFuel
+  end.
+(* ... as it was before the repair of F-B (commit 58535de7): the pre-step value was always put back *)
+Definition istep_old (zchk : bool) (req : Z -> list (option Z)) (c : clk) (acts : list ev_act)
+  : result (clk * list (list Z)) :=
+  match engine_step zchk req c acts with
+  | Ok (c2, idxs) => Ok (with_S c2 (S c), idxs)
+  | Rejected e => Rejected e
+  | OutOfFuel => OutOfFuel
+  end.
 
-Record step_obs := {
-  o_ev_time : Z;                (* event.time of the four events *)
-  o_idx_a : list Z;             (* index of time_step__prepare and time_step *)
-  o_idx_b : list Z;             (* index of time_step__cleanup and collect_metrics (after births) *)
-  o_T : Z; o_S : Z;             (* clock and global step after the step *)
-  o_rows : list (Z * Z * Z)     (* (label, next_event_time, step_size) after the step *)
-}.
+(* ================= executable checks used by the correspondence ================= *)
+(* the values the modifiers returned at one step_forward, as recorded by the probe: label -> values *)
+Definition req_table := list (Z * list (option Z)).
+Definition req_of (tbl : req_table) (l : Z) : list (option Z) :=
+  match zassoc l tbl with Some v => v | None => [] end.
+Definition covered (tbl : req_table) (c : clk) : bool :=        (* every simulant being updated was asked about *)
+  forallb (fun l => match zassoc l tbl with Some _ => true | None => false end) (active_at c (T c + S c)).
 
 Definition row_eqb (r : row) (t : Z * Z * Z) : bool :=
   let '(l, n, s) := t in (lbl r =? l) && (nxt r =? n) && (stp r =? s).
-
 Fixpoint rows_eqb (l : list row) (t : list (Z * Z * Z)) : bool :=
   match l, t with
   | [], [] => true
@@ -137,41 +188,61 @@ Fixpoint rows_eqb (l : list row) (t : list (Z * Z * Z)) : bool :=
   | _, _ => false
   end.
 
-Definition one_step (mods : list modifier) (t0 : Z) (c : clk) (p : step_plan) : result (clk * (Z * list Z * list Z)) :=
-  let ia := active c in
-  let sn := if sn_mod p =? 0 then [] else filter (fun l => l mod (sn_mod p) =? sn_rem p) ia in
-  let c1 := create (snooze_op c sn) (births p) in
-  let ib := active c1 in
-  match step_forward (req_of mods t0 c1) c1 with
-  | Ok c2 => Ok (c2, (T c + S c, ia, ib))
-  | Rejected e => Rejected e
-  | OutOfFuel => OutOfFuel
-  end.
+(* observed state: clock, global step, (label, next_event_time, step_size) of every simulant *)
+Definition state_obs := (Z * Z * list (Z * Z * Z))%type.
+Definition state_eqb (c : clk) (o : state_obs) : bool :=
+  let '(t, s, rs) := o in (T c =? t) && (S c =? s) && rows_eqb (rows c) rs.
 
-Fixpoint run_plans (mods : list modifier) (t0 : Z) (c : clk) (ps : list (step_plan * step_obs)) : bool :=
+(* one step as driven and observed: override, what the probe did in each of the four events, the recorded request
+   table; observed: None = the step raised; Some (event time, the four event indexes, state after the step) *)
+Definition step_in := (option Z * list (nat * list Z) * req_table)%type.
+Definition step_out := option (Z * list (list Z) * state_obs).
+Definition acts_of (l : list (nat * list Z)) : list ev_act := map (fun p => {| births := fst p; sn := snd p |}) l.
+
+Fixpoint run_steps (zchk : bool) (c : clk) (ps : list (step_in * step_out)) : bool :=
   match ps with
   | [] => true
-  | (p, o) :: r =>
-    match one_step mods t0 c p with
-    | Ok (c2, (et, ia, ib)) =>
-        (et =? o_ev_time o) && zlist_eqb ia (o_idx_a o) && zlist_eqb ib (o_idx_b o) &&
-        (T c2 =? o_T o) && (S c2 =? o_S o) && rows_eqb (rows c2) (o_rows o) && run_plans mods t0 c2 r
-    | _ => false
+  | ((ovr, acts, tbl), o) :: r =>
+    let ev := T c + (match ovr with Some s => s | None => S c end) in
+    match istep zchk ovr (req_of tbl) c (acts_of acts), o with
+    | Ok (c2, idxs), Some (et, oidx, so) =>
+        (et =? ev) && list_eqb zlist_eqb idxs oidx && state_eqb c2 so &&
+        covered tbl (fst (run_events (match ovr with Some s => with_S c s | None => c end) (acts_of acts))) &&
+        run_steps zchk c2 r
+    | Rejected _, None => match r with [] => true | _ => false end      (* the real step raised: end of the trace *)
+    | _, _ => false
     end
   end.
 
-(* case: (start, stop, minimum, standard, initial global step), population size, modifiers,
-         observed state after initialize_simulants, then the steps *)
-Definition clock_case := (Z * Z * Z * Z * Z * nat * list modifier * step_obs * list (step_plan * step_obs))%type.
+(* case: zero-step check of the plugin, (start, stop, minimum, standard, initial global step), population size, request
+         table of the initial update, observed state after initialize_simulants, then the steps *)
+Definition clock_case :=
+  (bool * Z * Z * Z * Z * Z * nat * req_table * state_obs * list (step_in * step_out))%type.
+(* literals: k six-hour units + r nanoseconds (keeps the generated files quick to parse; exact for every integer) *)
+Definition ns (k r : Z) : Z := k * 21600000000000 + r.
 Definition check_clock (k : clock_case) : bool :=
-  let '(t0, e, m0, std0, s0, n, mods, o0, ps) := k in
+  let '(zchk, t0, e, m0, std0, s0, n, tbl0, o0, ps) := k in
   let c := {| T := t0; S := s0; E := e; m := m0; std := std0; rows := []; snooze := [] |} in
-  let c0 := create (set_clk c (t0 - s0) s0 [] []) n in
-  match step_forward (req_of mods t0 c0) c0 with
-  | Ok c1 => (T c1 =? o_T o0) && (S c1 =? o_S o0) && rows_eqb (rows c1) (o_rows o0) && run_plans mods t0 c1 ps
+  match initialize (req_of tbl0) c n with
+  | Ok c1 => state_eqb c1 o0 && covered tbl0 (pre_init c n) && run_steps zchk c1 ps
   | _ => false
   end.
 
 (* post-processor alone: (minimum, standard, values, observed result) *)
 Definition check_post (k : Z * Z * list (option Z) * Z) : bool :=
   let '(m0, std0, vals, out) := k in post m0 std0 vals =? out.
+
+(* ---- the clock without step modifiers (`_individual_clocks = None`): every simulant is in every event, the step is
+        constant.  case: (start, step, population size, steps = (births in the four events, observed event time,
+        observed sizes of the four event indexes [indexes are checked to be 0..k-1 by the harness], clock after)) ---- *)
+Fixpoint global_steps (t s : Z) (n : nat) (ps : list (list nat * (Z * list Z * Z * Z))) : bool :=
+  match ps with
+  | [] => true
+  | (bs, (et, sizes, t', s')) :: r =>
+    let counts := (fix go (k : nat) (bs : list nat) : list Z * nat :=
+                     match bs with [] => ([], k)
+                     | b :: bs' => let '(l, k') := go (k + b)%nat bs' in (Z.of_nat k :: l, k') end) n bs in
+    (et =? t + s) && zlist_eqb (fst counts) sizes && (t' =? t + s) && (s' =? s) && global_steps (t + s) s (snd counts) r
+  end.
+Definition check_global (k : Z * Z * nat * list (list nat * (Z * list Z * Z * Z))) : bool :=
+  let '(t0, s0, n, ps) := k in global_steps t0 s0 n ps.
